@@ -1,17 +1,23 @@
 P = {
     "gens": ["C06forward"],
     "theorems": ["C06_faithful", "C06_age_fits", "C06_refuse", "C06_refuse_purged_first", "C06_refuse_purged_retry",
-                 "C06_purged_stays"],
+                 "C06_purged_stays", "C06_duplicate_ignored", "C06_item_stable", "C06_residence_since_reception",
+                 "C06_duplicate_transparent", "C06_faithful_timed", "C06_refuse_timed"],
     "rule": "real routing.Core on a temp dir (cron stopped, nodes reused per algorithm) with scripted mock convergence senders that "
             "serialise inside Send; one case = one bundle accepted through the receive path + rounds {recv, retry (reception "
-            "timestamp moved back through the hook VerifSetReceptionTime, then pending_bundles / peer appearance), clean}; per round: "
+            "timestamp moved back through the hook VerifSetReceptionTime, then pending_bundles / peer appearance), clean, dup (the same "
+            "bundle - an exact copy or one that took another path: other hop count / age / previous node - handed in again at the "
+            "node's, the peer's or a third endpoint, 1-3 at a time, the stamp moved back once BEFORE the duplicate or real 30-60 ms "
+            "sleeps; every retry after it keeps the stamp, so its residence counts from the FIRST reception)}; per round: "
             "clock bracket, residence bracket, every Send for the bundle (bytes parsed back, dumped, CheckValid, re-encoded primary), "
             "store membership and retention constraints afterwards. Streams: hop = the (limit,count) square (thorough: all 65536 "
             "points; quick: 3 diagonals, sampled border, 150 random) x first send / retry / stored-then-peer; mix = random crossing of "
             "{hop absent/present, age block, zero/non-zero creation time, previous node absent/present/this node/ipn, 0-3 unknown "
             "blocks with random flags, spray block, status-request flags, unsorted block numbers incl. 2^64-1} x {sent at once, 1-3 "
             "scripted failures then retries, stored without peer then peer appears, 3rd retry} x residence {0, 50 ms, 3 s, real 60 ms "
-            "sleep} x algorithm {epidemic, spray, binary_spray, prophet, dtlsr} x direct delivery / algorithm's choice; unk = one "
+            "sleep} x algorithm {epidemic, spray, binary_spray, prophet, dtlsr} x direct delivery / algorithm's choice; dup = the random bundles of mix x {stored without a peer / peer refusing 1-2 times / ordinary retry first / "
+            "transmitted at once (duplicate of a retained or of an already released bundle = new reception)} x duplicates before "
+            "the first and between later transmissions; unk = one "
             "unknown block x all 16 flag combinations x first/retry/stored; age = clock-less (and clocked) bundles whose age + "
             "residence lies 0.3 s / 2 s / 100 s below or above the lifetime; exp = creation-time expiry before the reception, "
             "between reception and retry (120 ms real sleep), after the retry, each followed by clean_store. The expected outcome is "
